@@ -59,7 +59,10 @@ func convert(in interface{}) Object {
 	}
 
 	if err, ok := in.(error); ok && err != nil {
-		return String(fmt.Sprintf("Error: %+v", err))
+		// a nil pointer whose type implements error is null like every other nil pointer, not an error to print
+		if rv := reflect.ValueOf(err); rv.Kind() != reflect.Ptr || !rv.IsNil() {
+			return String(fmt.Sprintf("Error: %+v", err))
+		}
 	}
 
 	switch val.Kind() {
